@@ -553,10 +553,81 @@ Proof.
     + simpl. rewrite Hs. eapply IH; eauto.
 Qed.
 
-Lemma after_window h bvd frozen minp top cands c : bvd < h -> NoDup cands ->
+Lemma no_frozen_elected h bvd frozen minp top cands c : NoDup cands ->
   c ∈ elect minp top (malicious_set h bvd frozen) cands -> c_addr c ∉ frozen.
 Proof.
-  intros Hh Hnd Hc. unfold malicious_set in Hc.
-  destruct (h <=? bvd) eqn:E; [apply Z.leb_le in E; lia|].
+  intros Hnd Hc. unfold malicious_set in Hc.
   exact (proj2 (ve_elig _ _ _ _ _ (elect_valid minp top frozen cands Hnd) c Hc)).
 Qed.
+
+(* ---------- records: "address = address of the key" is an invariant of the record table ---------- *)
+Definition table_ok (t : list cand) : Prop := NoDup (map c_addr t) /\ well_keyed t.
+
+Lemma upd_rec_addr a f t : map c_addr (upd_rec a f t) = map c_addr t.
+Proof. unfold upd_rec. rewrite map_map. apply map_ext. intros c. by destruct (N.eqb (c_addr c) a). Qed.
+
+Lemma upd_rec_keyed a f t : well_keyed t -> well_keyed (upd_rec a f t).
+Proof.
+  intros H c Hc. unfold upd_rec in Hc. apply elem_of_map_iff in Hc as (d & -> & Hd).
+  destruct (N.eqb (c_addr d) a); simpl; by apply H.
+Qed.
+
+Lemma has_rec_false a t : has_rec a t = false -> a ∉ map c_addr t.
+Proof.
+  intros H Hin. apply elem_of_map_iff in Hin as (c & -> & Hc).
+  assert (has_rec (c_addr c) t = true); [|congruence].
+  apply existsb_exists. exists c. split; [by apply elem_of_list_In|apply N.eqb_refl].
+Qed.
+
+Lemma rec_step_ok t o : table_ok t -> table_ok (rec_step t o).
+Proof.
+  intros [Hnd Hk]. destruct o as [a pk amt|a amt|a st|a]; simpl.
+  - destruct (N.eqb a pk) eqn:E; simpl; [|done]. apply N.eqb_eq in E. subst pk.
+    destruct (has_rec a t) eqn:Hh.
+    + split; [by rewrite upd_rec_addr|by apply upd_rec_keyed].
+    + split.
+      * rewrite map_app. apply NoDup_app. split; [done|]. split; [|simpl; apply NoDup_singleton].
+        intros x Hx Hx2. simpl in Hx2. apply elem_of_list_singleton in Hx2. subst x. by apply (has_rec_false _ _ Hh).
+      * intros c Hc. apply elem_of_app in Hc as [Hc|Hc]; [by apply Hk|].
+        apply elem_of_list_singleton in Hc. by subst c.
+  - split; [by rewrite upd_rec_addr|by apply upd_rec_keyed].
+  - split; [by rewrite upd_rec_addr|by apply upd_rec_keyed].
+  - split; [by apply NoDup_map_filter|]. intros c Hc. apply filter_In_elem in Hc as [Hc _]. by apply Hk.
+Qed.
+
+Lemma rec_run_ok ops : forall t, table_ok t -> table_ok (rec_run t ops).
+Proof.
+  unfold rec_run. induction ops as [|o ops IH]; simpl; intros t Ht; [done|]. apply IH. by apply rec_step_ok.
+Qed.
+
+(* a history of blocks: the record operations executed in the block (transactions, then the
+   EndBlock deletions) and what the election of that block is given besides the table *)
+Record blk := mkblk { bk_ops : list recop; bk_opts : opts; bk_mal : list key; bk_byz : bool; bk_el : list cand }.
+
+(* the candidate table of a block is the table left by the previous block *)
+Fixpoint envs_of (t : list cand) (bs : list blk) : list env :=
+  match bs with
+  | [] => []
+  | b :: r => mke t (bk_opts b) (bk_mal b) (bk_byz b) (bk_el b) :: envs_of (rec_run t (bk_ops b)) r
+  end.
+
+(* what is still assumed of a block once the keys are an invariant *)
+Record env_rest (U : list key) (cap : key -> Z) (e : env) : Prop := {
+  er_min : 1 <= min_power (e_opts e);
+  er_top : 1 <= o_top (e_opts e);
+  er_some : exists c, c ∈ e_cands e /\ eligible (min_power (e_opts e)) (e_mal e) c;
+  er_valid : valid_election (min_power (e_opts e)) (o_top (e_opts e)) (e_mal e) (e_cands e) (e_el e);
+  er_cap : forall c, c ∈ e_cands e -> c_pk c ∈ U /\ c_power c <= cap (c_pk c) }.
+
+Lemma envs_of_ok U cap bs : forall t, table_ok t -> Forall (env_rest U cap) (envs_of t bs) ->
+  Forall (env_ok U cap) (envs_of t bs).
+Proof.
+  induction bs as [|b bs IH]; simpl; intros t Ht Hr; [constructor|].
+  apply Forall_cons in Hr as [Hr Hrs]. apply Forall_cons. split.
+  - destruct Ht as [Hnd Hk]. destruct Hr. by constructor.
+  - apply IH; [by apply rec_run_ok|done].
+Qed.
+
+Lemma accepted_reachable U cap g t0 bs : cap_ok U cap -> genesis_ok U cap g -> table_ok t0 ->
+  Forall (env_rest U cap) (envs_of t0 bs) -> is_Some (chain_run (chain_init g) (envs_of t0 bs)).
+Proof. intros Hcap Hg Ht Hr. apply (accepted U cap); [done|done|]. by apply envs_of_ok. Qed.
